@@ -1,5 +1,5 @@
 (* Model/QuantileCI.v — stats/quantileci.go, exact rationals.  DEFINITIONS ONLY.
-   QuantileCI (quantileci.go:82-279) and QuantileCIResult.SampleCI (46-71). *)
+   QuantileCI (quantileci.go:82-290) and QuantileCIResult.SampleCI (46-71). *)
 From MM Require Import Base.Num Base.GFSum Model.Choose Model.Binom.
 From Coq Require Import Qround Sorting.Mergesort Orders.
 Local Open Scope Q_scope.
@@ -13,7 +13,7 @@ Definition qci_full (n : Z) : qres := mkR 0 (n + 1) 1 false.
 Definition mode_x (n : Z) (q : Q) : Z :=
   if Qeq_bool q 0 then 0%Z else (Qceiling (inject_Z (n + 1) * q) - 1)%Z.
 
-(* final clamping (quantileci.go:270-277) *)
+(* final clamping (quantileci.go:281-288) *)
 Definition clampR (n l r : Z) (conf : Q) (amb : bool) : qres :=
   mkR (if (l <? 0)%Z then 0%Z else l) (if (n + 1 <? r)%Z then (n + 1)%Z else r) conf amb.
 
@@ -133,18 +133,27 @@ Definition qci_small_set (n : Z) (g : list (list (st * list st))) (sc c : Q) : l
   end.
 End Small.
 
-(* ---------- n > 30: normal approximation (quantileci.go:192-268) ----------
-   Oracle instantiation: l1 = norm.InvCDF((1-c)/2) and r1 = 2*norm.Mu - l1 are given, and
-   [cdfband l r] is the closure cdf(l, r) = norm.CDF(r-0.5) - norm.CDF(l-0.5) of the code. *)
+(* ---------- n > 30: normal approximation (quantileci.go:192-279) ----------
+   Oracle instantiation: l1 = norm.InvCDF(alpha) with alpha = [qci_alpha c] and r1 = 2*norm.Mu - l1
+   are given, and [cdfband l r] is the closure cdf(l, r) = norm.CDF(r-0.5) - norm.CDF(l-0.5) of the
+   code.  This is the code after "fix: QuantileCI returns an empty or inverted interval for
+   confidence <= 0 when n > 30": alpha is capped at 1/2, an empty rounded band keeps the bucket below
+   it, and the left-biased trim is never taken when it would leave an empty band. *)
+(* quantileci.go:195-200: alpha = (1 - confidence)/2, capped at 0.5 *)
+Definition qci_alpha (c : Q) : Q :=
+  let a := (1 - c) / 2 in if Qltb (1 # 2) a then 1 # 2 else a.
 Section Normal.
 Variable cdfband : Z -> Z -> Q.
 Definition qci_normal (n : Z) (c l1 r1 : Q) : qres :=
   (* floorInt(math.Floor(l1-0.5)+0.5)+1 and floorInt(math.Ceil(r1-0.5)+0.5)+1 *)
-  let l := (Qfloor (l1 - (1 # 2)) + 1)%Z in
+  let l0 := (Qfloor (l1 - (1 # 2)) + 1)%Z in
   let r := (Qceiling (r1 - (1 # 2)) + 1)%Z in
+  (* quantileci.go:226-231: if r <= l { l = r - 1 } *)
+  let l := if (r <=? l0)%Z then (r - 1)%Z else l0 in
   let conf := cdfband l r in
   let ab := cdfband l (r - 1) in
-  let '(conf1, amb1, r1') := if Qle_bool c ab && Qltb ab conf then (ab, true, (r - 1)%Z) else (conf, false, r) in
+  (* quantileci.go:257: rBiased > l && aBiased >= confidence && aBiased < res.Confidence *)
+  let '(conf1, amb1, r1') := if (l <? r - 1)%Z && Qle_bool c ab && Qltb ab conf then (ab, true, (r - 1)%Z) else (conf, false, r) in
   let '(conf2, amb2) := if (l <=? 0)%Z && (n + 1 <=? r1')%Z then (1, false) else (conf1, amb1) in
   clampR n l r1' conf2 amb2.
 End Normal.
